@@ -20,7 +20,9 @@ Lemma nodup_perm_length (l l' : list nat) : Permutation l l' ->
   length (nodup Nat.eq_dec l) = length (nodup Nat.eq_dec l').
 Proof.
   intros H. apply Permutation_length. apply NoDup_Permutation; try apply NoDup_nodup.
-  intros x. rewrite !nodup_In. split; intros; eapply Permutation_in; eauto. now apply Permutation_sym.
+  intros x. rewrite !nodup_In. split; intros Hx.
+  - apply (Permutation_in x H Hx).
+  - apply (Permutation_in x (Permutation_sym H) Hx).
 Qed.
 Lemma rev_seq_S n : rev (seq 1 (S n)) = S n :: rev (seq 1 n).
 Proof. rewrite seq_S, rev_app_distr. reflexivity. Qed.
@@ -30,18 +32,22 @@ Context {T : Type} (K : ops T).
 Notation "0" := (o0 K). Notation "1" := (o1 K).
 Variable solve : list (list T) -> list T -> list T.
 
+Lemma dims_eq (G G' : core T) : dims G = dims G' -> cr1 G = cr1 G' /\ cn G = cn G' /\ cr2 G = cr2 G'.
+Proof. unfold dims. intros H. inversion H. auto. Qed.
 Lemma opt_core_dims lamb Q pos Z : dims (opt_core K solve lamb Q pos Z) = dims Q.
 Proof. reflexivity. Qed.
 Lemma dims_chain (Y Y' : list (core T)) r rl : map dims Y = map dims Y' -> chain r Y rl -> chain r Y' rl.
 Proof.
-  revert Y' r; induction Y as [|G Y IH]; intros [|G' Y'] r; simpl; intros E; try discriminate; auto.
-  injection E as E1 E2. unfold dims in E1. injection E1 as A B C. intros (H1 & H2). split; [congruence|].
+  revert Y' r; induction Y as [|G Y IH]; intros [|G' Y'] r; cbn [map chain]; intros E; try discriminate; auto.
+  assert (E1 : dims G = dims G') by congruence. assert (E2 : map dims Y = map dims Y') by congruence.
+  destruct (dims_eq _ _ E1) as (A & B & C). intros (H1 & H2). split; [congruence|].
   rewrite <- C. now apply IH.
 Qed.
 Lemma dims_wfo (Y Y' : list (core T)) r idx rl : map dims Y = map dims Y' -> wfo r Y idx rl -> wfo r Y' idx rl.
 Proof.
-  revert Y' r idx; induction Y as [|G Y IH]; intros [|G' Y'] r [|i idx]; simpl; intros E; try discriminate; auto.
-  injection E as E1 E2. unfold dims in E1. injection E1 as A B C. intros (H1 & H2 & H3).
+  revert Y' r idx; induction Y as [|G Y IH]; intros [|G' Y'] r [|i idx]; cbn [map wfo]; intros E; try discriminate; auto.
+  assert (E1 : dims G = dims G') by congruence. assert (E2 : map dims Y = map dims Y') by congruence.
+  destruct (dims_eq _ _ E1) as (A & B & C). intros (H1 & H2 & H3).
   repeat split; try congruence. rewrite <- C. now apply IH.
 Qed.
 
@@ -63,40 +69,40 @@ Proof. intros. unfold lvec. now rewrite firstn_upd. Qed.
 Lemma rvec_upd Y k k' G idx : k <= k' -> rvec K (upd k G Y) k' idx = rvec K Y k' idx.
 Proof. intros. unfold rvec. now rewrite skipn_upd by lia. Qed.
 
-Definition wfS (d : nat) (S : list (sample (T:=T))) : Prop := Forall (fun sm => length (sidx sm) = d) S.
-Definition Lok S Y (L : list (list (list T))) k' := nth k' L [] = map (fun sm => lvec K Y k' (sidx sm)) S.
-Definition Rok S Y (R : list (list (list T))) k' := nth k' R [] = map (fun sm => rvec K Y k' (sidx sm)) S.
+Definition wfS (d : nat) (Sm : list (@sample T)) : Prop := Forall (fun sm => length (sidx sm) = d) Sm.
+Definition Lok (Sm : list (@sample T)) Y (L : list (list (list T))) k' := nth k' L [] = map (fun sm => lvec K Y k' (sidx sm)) Sm.
+Definition Rok (Sm : list (@sample T)) Y (R : list (list (list T))) k' := nth k' R [] = map (fun sm => rvec K Y k' (sidx sm)) Sm.
 (* interfaces_inv: at position k of a sweep every left interface up to k and every right interface from k on
    holds the true partial products of every sample with respect to the CURRENT cores *)
-Record Inv (S : list sample) (d : nat) (s : st (T:=T)) (k : nat) : Prop := {
+Record Inv (Sm : list (@sample T)) (d : nat) (s : @st T) (k : nat) : Prop := {
   inv_len : length (sY s) = d; inv_lenL : length (sL s) = d; inv_lenR : length (sR s) = d;
-  inv_L : forall k', k' <= k -> k' < d -> Lok S (sY s) (sL s) k';
-  inv_R : forall k', k <= k' -> k' < d -> Rok S (sY s) (sR s) k' }.
+  inv_L : forall k', k' <= k -> k' < d -> Lok Sm (sY s) (sL s) k';
+  inv_R : forall k', k <= k' -> k' < d -> Rok Sm (sY s) (sR s) k' }.
 
-Lemma zip3_ref S Y k L R : nth k L [] = map (fun sm => lvec K Y k (sidx sm)) S ->
-  nth k R [] = map (fun sm => rvec K Y k (sidx sm)) S -> zip3 S (nth k L []) (nth k R []) = zref K S Y k.
+Lemma zip3_ref Sm Y k L R : nth k L [] = map (fun sm => lvec K Y k (sidx sm)) Sm ->
+  nth k R [] = map (fun sm => rvec K Y k (sidx sm)) Sm -> zip3 Sm (nth k L []) (nth k R []) = zref K Sm Y k.
 Proof. intros -> ->. unfold zip3, zref. rewrite combine_map_map. now rewrite combine_map_r. Qed.
-Lemma lupdate_map S k G (f : sample -> list T) :
-  lupdate K S k G (map f S) = map (fun sm => vstep K (f sm) G (nth k (sidx sm) O)) S.
+Lemma lupdate_map Sm k G (f : sample -> list T) :
+  lupdate K Sm k G (map f Sm) = map (fun sm => vstep K (f sm) G (nth k (sidx sm) O)) Sm.
 Proof. unfold lupdate. rewrite combine_map_r, map_map. reflexivity. Qed.
-Lemma rupdate_map S k G (f : sample -> list T) :
-  rupdate K S k G (map f S) = map (fun sm => rstep K G (nth k (sidx sm) O) (f sm)) S.
+Lemma rupdate_map Sm k G (f : sample -> list T) :
+  rupdate K Sm k G (map f Sm) = map (fun sm => rstep K G (nth k (sidx sm) O) (f sm)) Sm.
 Proof. unfold rupdate. rewrite combine_map_r, map_map. reflexivity. Qed.
 
 Variable lamb : T.
 
-Lemma fwd_step_sim S d s k : Inv S d s k -> S k < d -> wfS d S ->
-  sY (fwd_step K solve lamb S s k) = ref_step K solve lamb S (sY s) k /\ Inv S d (fwd_step K solve lamb S s k) (S k).
+Lemma fwd_step_sim Sm d s k : Inv Sm d s k -> S k < d -> wfS d Sm ->
+  sY (fwd_step K solve lamb Sm s k) = ref_step K solve lamb Sm (sY s) k /\ Inv Sm d (fwd_step K solve lamb Sm s k) (S k).
 Proof.
   intros I Hk W. destruct I as [l1 l2 l3 IL IR].
-  assert (HZ : zip3 S (nth k (sL s) []) (nth k (sR s) []) = zref K S (sY s) k)
+  assert (HZ : zip3 Sm (nth k (sL s) []) (nth k (sR s) []) = zref K Sm (sY s) k)
     by (apply zip3_ref; [apply IL | apply IR]; lia).
   unfold fwd_step. rewrite HZ. split; [reflexivity|].
-  set (G := opt_core K solve lamb (nth k (sY s) dcore) k (zref K S (sY s) k)).
+  set (G := opt_core K solve lamb (nth k (sY s) dcore) k (zref K Sm (sY s) k)).
   constructor; cbn [sY sL sR]; rewrite ?upd_length; auto.
   - intros k' Hk' Hd. unfold Lok. destruct (Nat.eq_dec k' (S k)) as [->|Hne].
     + rewrite nth_upd_eq by lia. rewrite (IL k) by lia. rewrite lupdate_map.
-      apply map_ext_in. intros sm Hin. rewrite Forall_forall in W. specialize (W sm Hin).
+      apply map_ext_in. intros sm Hin. unfold wfS in W. rewrite Forall_forall in W. specialize (W sm Hin).
       rewrite lvec_succ by (rewrite ?upd_length; lia). rewrite nth_upd_eq by lia.
       now rewrite lvec_upd by lia.
     + rewrite nth_upd_neq by auto. rewrite (IL k') by lia.
@@ -105,63 +111,63 @@ Proof.
     apply map_ext. intros sm. now rewrite rvec_upd by lia.
 Qed.
 
-Lemma bwd_step_sim S d s k : Inv S d s k -> 1 <= k -> k < d -> wfS d S ->
-  sY (bwd_step K solve lamb S s k) = ref_step K solve lamb S (sY s) k /\ Inv S d (bwd_step K solve lamb S s k) (pred k).
+Lemma bwd_step_sim Sm d s k : Inv Sm d s k -> 1 <= k -> k < d -> wfS d Sm ->
+  sY (bwd_step K solve lamb Sm s k) = ref_step K solve lamb Sm (sY s) k /\ Inv Sm d (bwd_step K solve lamb Sm s k) (pred k).
 Proof.
   intros I H1 Hk W. destruct I as [l1 l2 l3 IL IR].
-  assert (HZ : zip3 S (nth k (sL s) []) (nth k (sR s) []) = zref K S (sY s) k)
+  assert (HZ : zip3 Sm (nth k (sL s) []) (nth k (sR s) []) = zref K Sm (sY s) k)
     by (apply zip3_ref; [apply IL | apply IR]; lia).
   unfold bwd_step. rewrite HZ. split; [reflexivity|].
-  set (G := opt_core K solve lamb (nth k (sY s) dcore) k (zref K S (sY s) k)).
+  set (G := opt_core K solve lamb (nth k (sY s) dcore) k (zref K Sm (sY s) k)).
   constructor; cbn [sY sL sR]; rewrite ?upd_length; auto.
   - intros k' Hk' Hd. unfold Lok. rewrite (IL k') by lia.
     apply map_ext. intros sm. now rewrite lvec_upd by lia.
   - intros k' Hk' Hd. unfold Rok. destruct (Nat.eq_dec k' (pred k)) as [->|Hne].
     + rewrite nth_upd_eq by lia. rewrite (IR k) by lia. rewrite rupdate_map.
-      apply map_ext_in. intros sm Hin. rewrite Forall_forall in W. specialize (W sm Hin).
+      apply map_ext_in. intros sm Hin. unfold wfS in W. rewrite Forall_forall in W. specialize (W sm Hin).
       rewrite rvec_pred by (rewrite ?upd_length; lia). rewrite nth_upd_eq by lia.
       now rewrite rvec_upd by lia.
     + rewrite nth_upd_neq by auto. rewrite (IR k') by lia.
       apply map_ext. intros sm. now rewrite rvec_upd by lia.
 Qed.
 
-Lemma fwd_fold_sim S d : wfS d S -> forall n s k, Inv S d s k -> k + n <= d - 1 ->
-  sY (fold_left (fwd_step K solve lamb S) (seq k n) s) = fold_left (ref_step K solve lamb S) (seq k n) (sY s)
-  /\ Inv S d (fold_left (fwd_step K solve lamb S) (seq k n) s) (k + n).
+Lemma fwd_fold_sim Sm d : wfS d Sm -> forall n s k, Inv Sm d s k -> k + n <= d - 1 ->
+  sY (fold_left (fwd_step K solve lamb Sm) (seq k n) s) = fold_left (ref_step K solve lamb Sm) (seq k n) (sY s)
+  /\ Inv Sm d (fold_left (fwd_step K solve lamb Sm) (seq k n) s) (k + n).
 Proof.
   intros W. induction n as [|n IH]; intros s k I Hn; simpl.
   - rewrite Nat.add_0_r. auto.
-  - destruct (fwd_step_sim S d s k I) as [E I']; [lia | auto |].
+  - destruct (fwd_step_sim Sm d s k I) as [E I']; [lia | auto |].
     destruct (IH _ (S k) I') as [E2 I2]; [lia|]. rewrite E2, E. split; [reflexivity|].
     replace (k + S n) with (S k + n) by lia. exact I2.
 Qed.
-Lemma bwd_fold_sim S d : wfS d S -> forall n s, Inv S d s n -> n <= d - 1 ->
-  sY (fold_left (bwd_step K solve lamb S) (rev (seq 1 n)) s)
-  = fold_left (ref_step K solve lamb S) (rev (seq 1 n)) (sY s)
-  /\ Inv S d (fold_left (bwd_step K solve lamb S) (rev (seq 1 n)) s) O.
+Lemma bwd_fold_sim Sm d : wfS d Sm -> forall n s, Inv Sm d s n -> n <= d - 1 ->
+  sY (fold_left (bwd_step K solve lamb Sm) (rev (seq 1 n)) s)
+  = fold_left (ref_step K solve lamb Sm) (rev (seq 1 n)) (sY s)
+  /\ Inv Sm d (fold_left (bwd_step K solve lamb Sm) (rev (seq 1 n)) s) O.
 Proof.
   intros W. induction n as [|n IH]; intros s I Hn.
   - simpl. auto.
   - rewrite rev_seq_S. cbn [fold_left].
-    destruct (bwd_step_sim S d s (S n) I) as [E I']; [lia | lia | auto |].
+    destruct (bwd_step_sim Sm d s (S n) I) as [E I']; [lia | lia | auto |].
     destruct (IH _ I') as [E2 I2]; [lia|]. rewrite E2, E. auto.
 Qed.
 
 (* one sweep of the code (with interface state) = one sweep of the reference semantics (cores only) *)
-Lemma sweep_sim S d s : wfS d S -> Inv S d s O ->
-  sY (sweep K solve lamb S s) = ref_sweep K solve lamb S (sY s) /\ Inv S d (sweep K solve lamb S s) O.
+Lemma sweep_sim Sm d s : wfS d Sm -> Inv Sm d s O ->
+  sY (sweep K solve lamb Sm s) = ref_sweep K solve lamb Sm (sY s) /\ Inv Sm d (sweep K solve lamb Sm s) O.
 Proof.
   intros W I. unfold sweep, ref_sweep. rewrite (inv_len _ _ _ _ I).
-  destruct (fwd_fold_sim S d W (d - 1) s O I) as [E I1]; [lia|].
-  destruct (bwd_fold_sim S d W (d - 1) _ I1) as [E2 I2]; [lia|].
+  destruct (fwd_fold_sim Sm d W (d - 1) s O I) as [E I1]; [lia|].
+  destruct (bwd_fold_sim Sm d W (d - 1) _ I1) as [E2 I2]; [lia|].
   rewrite E2, E. auto.
 Qed.
-Lemma iter_sweep_sim S d s n : wfS d S -> Inv S d s O ->
-  sY (Nat.iter n (sweep K solve lamb S) s) = Nat.iter n (ref_sweep K solve lamb S) (sY s)
-  /\ Inv S d (Nat.iter n (sweep K solve lamb S) s) O.
+Lemma iter_sweep_sim Sm d s n : wfS d Sm -> Inv Sm d s O ->
+  sY (Nat.iter n (sweep K solve lamb Sm) s) = Nat.iter n (ref_sweep K solve lamb Sm) (sY s)
+  /\ Inv Sm d (Nat.iter n (sweep K solve lamb Sm) s) O.
 Proof.
   intros W I. induction n as [|n [E I']]; simpl; auto.
-  destruct (sweep_sim S d _ W I') as [E2 I2]. rewrite E2, E. auto.
+  destruct (sweep_sim Sm d _ W I') as [E2 I2]. rewrite E2, E. auto.
 Qed.
 
 (* ------------------------------------------------------------------ the initial state *)
@@ -173,15 +179,15 @@ Proof.
   apply (IH _ B). discriminate.
 Qed.
 
-Lemma init_inv S Y : chain 1 Y 1 -> wfS (length Y) S -> Inv S (length Y) (init_st K S Y) O.
+Lemma init_inv Sm Y : chain 1 Y 1 -> wfS (length Y) Sm -> Inv S (length Y) (init_st K Sm Y) O.
 Proof.
   intros C W. set (d := length Y). unfold init_st. fold d.
-  set (Yr0 := map (fun G => repeat (repeat 1 (cr2 G)) (length S)) Y).
-  set (stp := fun Yr k => upd (pred k) (rupdate K S k (nth k Y dcore) (nth k Yr [])) Yr).
+  set (Yr0 := map (fun G => repeat (repeat 1 (cr2 G)) (length Sm)) Y).
+  set (stp := fun Yr k => upd (pred k) (rupdate K Sm k (nth k Y dcore) (nth k Yr [])) Yr).
   assert (F : forall n Yr, n <= d - 1 -> length Yr = d ->
-              (forall k', n <= k' -> k' < d -> Rok S Y Yr k') ->
+              (forall k', n <= k' -> k' < d -> Rok Sm Y Yr k') ->
               length (fold_left stp (rev (seq 1 n)) Yr) = d /\
-              forall k', k' < d -> Rok S Y (fold_left stp (rev (seq 1 n)) Yr) k').
+              forall k', k' < d -> Rok Sm Y (fold_left stp (rev (seq 1 n)) Yr) k').
   { induction n as [|n IH]; intros Yr Hn HL HR.
     - simpl. split; auto. intros; apply HR; lia.
     - rewrite rev_seq_S. cbn [fold_left]. apply IH; [lia | unfold stp; now rewrite upd_length |].
@@ -192,7 +198,7 @@ Proof.
       + rewrite nth_upd_neq by auto. apply HR; lia. }
   destruct (F (d - 1) Yr0) as [FL FR]; [lia | unfold Yr0; now rewrite map_length | |].
   { intros k' Hk' Hd. assert (k' = d - 1) by lia. subst k'. unfold Rok, Yr0.
-    rewrite nth_indep with (d' := (fun G => repeat (repeat 1 (cr2 G)) (length S)) dcore) by (rewrite map_length; fold d; lia).
+    rewrite nth_indep with (d' := (fun G => repeat (repeat 1 (cr2 G)) (length Sm)) dcore) by (rewrite map_length; fold d; lia).
     rewrite map_nth. unfold d. rewrite (chain_last Y 1 1 C) by (intros ->; simpl in *; lia).
     rewrite repeat_map. apply map_ext. intros sm. unfold rvec.
     replace (S (length Y - 1)) with (length Y) by (fold d; lia). now rewrite skipn_all. }
@@ -204,77 +210,70 @@ Proof.
 Qed.
 
 (* dims of every core are preserved by every step, with or without interface state *)
-Lemma fwd_step_dims S s k : map dims (sY (fwd_step K solve lamb S s k)) = map dims (sY s).
+Lemma fwd_step_dims Sm s k : map dims (sY (fwd_step K solve lamb Sm s k)) = map dims (sY s).
 Proof. unfold fwd_step. cbn [sY]. apply map_upd_same with (d := dcore). apply opt_core_dims. Qed.
-Lemma bwd_step_dims S s k : map dims (sY (bwd_step K solve lamb S s k)) = map dims (sY s).
+Lemma bwd_step_dims Sm s k : map dims (sY (bwd_step K solve lamb Sm s k)) = map dims (sY s).
 Proof. unfold bwd_step. cbn [sY]. apply map_upd_same with (d := dcore). apply opt_core_dims. Qed.
 Lemma fold_dims (f : st -> nat -> st) (H : forall s k, map dims (sY (f s k)) = map dims (sY s)) l s :
   map dims (sY (fold_left f l s)) = map dims (sY s).
 Proof. revert s; induction l as [|k l IH]; intros s; simpl; auto. now rewrite IH, H. Qed.
-Lemma sweep_dims S s : map dims (sY (sweep K solve lamb S s)) = map dims (sY s).
+Lemma sweep_dims Sm s : map dims (sY (sweep K solve lamb Sm s)) = map dims (sY s).
 Proof.
-  unfold sweep. rewrite (fold_dims _ (bwd_step_dims S)). now rewrite (fold_dims _ (fwd_step_dims S)).
+  unfold sweep. rewrite (fold_dims _ (bwd_step_dims Sm)). now rewrite (fold_dims _ (fwd_step_dims Sm)).
 Qed.
-Lemma iter_sweep_dims S s n : map dims (sY (Nat.iter n (sweep K solve lamb S) s)) = map dims (sY s).
+Lemma iter_sweep_dims Sm s n : map dims (sY (Nat.iter n (sweep K solve lamb Sm) s)) = map dims (sY s).
 Proof. induction n; simpl; auto. now rewrite sweep_dims. Qed.
-Lemma ref_step_dims S Y k : map dims (ref_step K solve lamb S Y k) = map dims Y.
+Lemma ref_step_dims Sm Y k : map dims (ref_step K solve lamb Sm Y k) = map dims Y.
 Proof. unfold ref_step. apply map_upd_same with (d := dcore). apply opt_core_dims. Qed.
-Lemma ref_fold_dims S l Y : map dims (fold_left (ref_step K solve lamb S) l Y) = map dims Y.
+Lemma ref_fold_dims Sm l Y : map dims (fold_left (ref_step K solve lamb Sm) l Y) = map dims Y.
 Proof. revert Y; induction l as [|k l IH]; intros Y; simpl; auto. now rewrite IH, ref_step_dims. Qed.
-Lemma ref_sweep_dims S Y : map dims (ref_sweep K solve lamb S Y) = map dims Y.
+Lemma ref_sweep_dims Sm Y : map dims (ref_sweep K solve lamb Sm Y) = map dims Y.
 Proof. unfold ref_sweep. now rewrite !ref_fold_dims. Qed.
-Lemma iter_ref_dims S Y n : map dims (Nat.iter n (ref_sweep K solve lamb S) Y) = map dims Y.
+Lemma iter_ref_dims Sm Y n : map dims (Nat.iter n (ref_sweep K solve lamb Sm) Y) = map dims Y.
 Proof. induction n; simpl; auto. now rewrite ref_sweep_dims. Qed.
 Lemma dims_length (Y Y' : list (core T)) : map dims Y = map dims Y' -> length Y = length Y'.
 Proof. intros H. rewrite <- (map_length dims Y), H. apply map_length. Qed.
 
 (* cores after n sweeps from a fresh start = n reference sweeps *)
-Lemma als_cores_ref S Y n : chain 1 Y 1 -> wfS (length Y) S ->
-  sY (Nat.iter n (sweep K solve lamb S) (init_st K S Y)) = Nat.iter n (ref_sweep K solve lamb S) Y.
-Proof. intros C W. apply (iter_sweep_sim S (length Y) (init_st K S Y) n W (init_inv S Y C W)). Qed.
+Lemma als_cores_ref Sm Y n : chain 1 Y 1 -> wfS (length Y) Sm ->
+  sY (Nat.iter n (sweep K solve lamb Sm) (init_st K Sm Y)) = Nat.iter n (ref_sweep K solve lamb Sm) Y.
+Proof. intros C W. apply (iter_sweep_sim S (length Y) (init_st K Sm Y) n W (init_inv Sm Y C W)). Qed.
 
 (* als_restart at the level of sweeps *)
-Lemma sweeps_restart S Y a b : chain 1 Y 1 -> wfS (length Y) S ->
-  sY (Nat.iter (a + b) (sweep K solve lamb S) (init_st K S Y))
-  = sY (Nat.iter b (sweep K solve lamb S) (init_st K S (sY (Nat.iter a (sweep K solve lamb S) (init_st K S Y))))).
+Lemma sweeps_restart Sm Y a b : chain 1 Y 1 -> wfS (length Y) Sm ->
+  sY (Nat.iter (a + b) (sweep K solve lamb Sm) (init_st K Sm Y))
+  = sY (Nat.iter b (sweep K solve lamb Sm) (init_st K Sm (sY (Nat.iter a (sweep K solve lamb Sm) (init_st K Sm Y))))).
 Proof.
   intros C W. rewrite !als_cores_ref; auto.
   - rewrite Nat.add_comm. apply Nat.iter_add.
   - rewrite <- als_cores_ref by auto. eapply dims_chain; [symmetry; apply iter_sweep_dims | exact C].
-  - rewrite <- (dims_length _ _ (iter_ref_dims S Y a)). exact W.
+  - rewrite <- (dims_length _ _ (iter_ref_dims Sm Y a)). exact W.
 Qed.
 
 (* ------------------------------------------------------------------ sample order *)
 Hypothesis Rth : rng K.
 
+Lemma slice_sol_perm pos r1 r2 Z Z' i : Permutation Z Z' ->
+  slice_sol K solve lamb pos r1 r2 Z i = slice_sol K solve lamb pos r1 r2 Z' i.
+Proof.
+  intros P. unfold slice_sol.
+  assert (PR : Permutation (slice_rows K pos i r1 r2 Z) (slice_rows K pos i r1 r2 Z'))
+    by (unfold slice_rows; apply Permutation_map; now apply Permutation_filter').
+  destruct (slice_rows K pos i r1 r2 Z) eqn:E1, (slice_rows K pos i r1 r2 Z') eqn:E2; auto.
+  - apply Permutation_nil in PR. discriminate.
+  - apply Permutation_sym, Permutation_nil in PR. discriminate.
+  - unfold lstsq. now rewrite (normal_mat_perm K Rth _ _ _ _ PR), (normal_rhs_perm K Rth _ _ _ PR).
+Qed.
 Lemma opt_core_perm Q pos Z Z' : Permutation Z Z' ->
   opt_core K solve lamb Q pos Z = opt_core K solve lamb Q pos Z'.
 Proof.
-  intros P. unfold opt_core. f_equal.
-  assert (E : forall i,
-    match slice_rows K pos i (cr1 Q) (cr2 Q) Z with [] => None
-    | _ :: _ => Some (lstsq K solve (cr1 Q * cr2 Q) lamb (slice_rows K pos i (cr1 Q) (cr2 Q) Z)) end =
-    match slice_rows K pos i (cr1 Q) (cr2 Q) Z' with [] => None
-    | _ :: _ => Some (lstsq K solve (cr1 Q * cr2 Q) lamb (slice_rows K pos i (cr1 Q) (cr2 Q) Z')) end).
-  { intros i.
-    assert (PR : Permutation (slice_rows K pos i (cr1 Q) (cr2 Q) Z) (slice_rows K pos i (cr1 Q) (cr2 Q) Z'))
-      by (unfold slice_rows; apply Permutation_map; now apply Permutation_filter').
-    unfold lstsq. rewrite (normal_mat_perm K Rth _ _ _ _ PR), (normal_rhs_perm K Rth _ _ _ PR).
-    destruct (slice_rows K pos i (cr1 Q) (cr2 Q) Z) eqn:E1, (slice_rows K pos i (cr1 Q) (cr2 Q) Z') eqn:E2; auto.
-    - apply Permutation_nil in PR. discriminate.
-    - apply Permutation_sym, Permutation_nil in PR. discriminate. }
-  assert (E' : tab (cn Q) (fun i => match slice_rows K pos i (cr1 Q) (cr2 Q) Z with [] => None
-                 | _ :: _ => Some (lstsq K solve (cr1 Q * cr2 Q) lamb (slice_rows K pos i (cr1 Q) (cr2 Q) Z)) end)
-             = tab (cn Q) (fun i => match slice_rows K pos i (cr1 Q) (cr2 Q) Z' with [] => None
-                 | _ :: _ => Some (lstsq K solve (cr1 Q * cr2 Q) lamb (slice_rows K pos i (cr1 Q) (cr2 Q) Z')) end))
-    by (apply tab_ext; intros; apply E).
-  cbv zeta.
-  match goal with |- tab ?n ?f = tab ?n ?g =>
-    change f with (fun a => tab (cn Q) (fun i => tab (cr2 Q) (fun b =>
-       match nth i (tab (cn Q) (fun i => match slice_rows K pos i (cr1 Q) (cr2 Q) Z with [] => None
-                 | _ :: _ => Some (lstsq K solve (cr1 Q * cr2 Q) lamb (slice_rows K pos i (cr1 Q) (cr2 Q) Z)) end)) None with
-       | None => cget K Q a i b | Some x => nth (a * cr2 Q + b) x 0 end)))
-  end.
-  rewrite E'. reflexivity.
+  intros P. unfold opt_core. f_equal. apply tab_ext; intros i _. now apply slice_sol_perm.
 Qed.
+Lemma ref_step_perm Sm Sm' Y k : Permutation Sm Sm' -> ref_step K solve lamb Sm Y k = ref_step K solve lamb Sm' Y k.
+Proof. intros P. unfold ref_step. f_equal. apply opt_core_perm. unfold zref. now apply Permutation_map. Qed.
+Lemma ref_fold_perm Sm Sm' l Y : Permutation Sm Sm' ->
+  fold_left (ref_step K solve lamb Sm) l Y = fold_left (ref_step K solve lamb Sm') l Y.
+Proof. intros P. revert Y; induction l as [|k l IH]; intros Y; simpl; auto. now rewrite IH, (ref_step_perm Sm Sm'). Qed.
+Lemma ref_sweep_perm Sm Sm' Y : Permutation Sm Sm' -> ref_sweep K solve lamb Sm Y = ref_sweep K solve lamb Sm' Y.
+Proof. intros P. unfold ref_sweep. now rewrite !(ref_fold_perm Sm Sm'). Qed.
 End Sim.
